@@ -14,6 +14,7 @@ let unhex s = if s = "-" then [] else
   List.init (String.length s / 2) (fun i -> n_of_int (int_of_string ("0x" ^ String.sub s (2*i) 2)))
 let hex l = if l = [] then "-" else String.concat "" (List.map (fun z -> Printf.sprintf "%02x" (int_of_n z)) l)
 let rec nat_of_int n = if n = 0 then O else S (nat_of_int (n - 1))
+let rec int_of_nat = function O -> 0 | S n -> 1 + int_of_nat n
 
 let toks = ref [||]
 let cur = ref 0
@@ -33,7 +34,7 @@ let rec expr () =
   | "C" -> let f = name () in let a = exprs () in ECall (f, a)
   | "L" -> let x = name () in let s = name () in let a = exprs () in ESel (x, s, a)
   | "F" -> let x = name () in let f = name () in EField (x, f)
-  | "U" -> let ps = names () in let r = bool_ () in let b = stmts () in EFuncLit (ps, r, b)
+  | "U" -> let ps = names () in let r = nat_of_int (int_ ()) in let b = stmts () in EFuncLit (ps, r, b)
   | "La" -> let ps = names () in let r = exprs () in ELambda (ps, r)
   | "Lb" -> let ps = names () in let b = stmts () in ELambda2 (ps, b)
   | "N" -> let t = name () in let e = expr () in ENew (t, e)
@@ -76,7 +77,7 @@ let rec pexpr = function
   | ECall (f, args) -> a "C"; a (to_s f); pexprs args
   | ESel (x, s, args) -> a "L"; a (to_s x); a (to_s s); pexprs args
   | EField (x, f) -> a "F"; a (to_s x); a (to_s f)
-  | EFuncLit (ps, r, b) -> a "U"; pnames ps; ai (if r then 1 else 0); pstmts b
+  | EFuncLit (ps, r, b) -> a "U"; pnames ps; ai (int_of_nat r); pstmts b
   | ELambda (ps, r) -> a "La"; pnames ps; pexprs r
   | ELambda2 (ps, b) -> a "Lb"; pnames ps; pstmts b
   | ENew (t, e) -> a "N"; a (to_s t); pexpr e
